@@ -324,3 +324,21 @@ def expand_aliases(fn, e, accept=is_path, _depth=0):
     if not mapping:
         return e
     return _clone(e, mapping)
+
+
+def uses_reached(fn, def_node, name: str):
+    """Load occurrences of *name* in fn that the binding made at *def_node* (a statement / for / comprehension-free
+    construct with a CFG node) may reach, in source order of the CFG walk; None when the definition has no CFG node
+    (caller falls back on positions)."""
+    from .model import walk_fn
+    g, rd = _rd_of(fn)
+    d = cfg_node_of(g, def_node)
+    if d is None:
+        return None
+    out = []
+    for u in walk_fn(fn.node):
+        if isinstance(u, ast.Name) and u.id == name and isinstance(u.ctx, ast.Load) and not _bound_by_expression(u):
+            at = cfg_node_of(g, u)
+            if at is None or d in rd.get(at, {}).get(name, set()):
+                out.append(u)
+    return out
